@@ -54,7 +54,7 @@ Definition step (E : aenv) (s : state) (o : op) : option state :=
       match sc with
       | SEmpty => Some (alloc s v (new_formula E [] KTuple density natural_density name))
       | SAtom a => Some (alloc s v (new_formula E [(1, FAtom a)] KTuple density natural_density name))
-      | SDict d => Some (alloc s v (new_formula E (hill_struct E d) KList density natural_density name))
+      | SDict d => Some (alloc s v (new_formula E (hill_struct E d) KTuple density natural_density name))
       | SNested st => Some (alloc s v (new_formula E st KTuple density natural_density name))
       | SFormula x =>
           match var_get s x with
